@@ -6,6 +6,19 @@ import os
 ROOT = os.path.dirname(os.path.dirname(os.path.abspath(__file__)))
 
 CHECKS = {
+    "C16": {
+        "text": "Proof (Coq, closed under the global context): two runs scheduled arbitrarily under non-blocking exclusive-lock "
+                "semantics never hold the lock together, a refused run has issued no storage operation, and the issue order of "
+                "storage operations is one run's followed by the other's. Tied to the code by traces of the real `vsb backup` "
+                "(exclusive non-blocking flock on the backup root is the first storage access and is held past the last removal) "
+                "and by starting a second real run while the first is paused right after the lock, while items are read, during "
+                "publication and during old-group removal: immediate lock error, no mutating storage call, listing unchanged.",
+        "note": "Partial: the exclusion itself is the kernel's flock(2); the scheduler model is an abstraction whose tie is the "
+                "paused-process experiment. `vsb upload` locks the configuration file in the same way (uploading/mod.rs:22); its "
+                "two-process scenario runs in the C05 emulator driver.",
+        "technique": "Coq proof (scheduler invariant) + paused-process experiments and lock-bracket traces on the real binary",
+        "design": "7/C16",
+    },
     "C08": {
         "text": "Proof (Coq, closed under the global context) on the walker model with per-node faults and an abstract filter: a run "
                 "that was not aborted and reported no error has archived every node that is there, unfaulted, reached through "
